@@ -77,11 +77,15 @@ def infer_redirection(url, recursive=True):
                 # without protocol is lost
                 # NOTE: joining raises on a malformed base (e.g. unbalanced
                 # brackets in the netloc), in which case there is nothing to follow
+                # NOTE: joining the stripped url, else whitespace the join does not
+                # know about (e.g. a non-breaking space) hides the protocol from it
+                stripped_url = url.lstrip()
+
                 try:
-                    if PROTOCOL_RE.match(url.lstrip()):
-                        target = urljoin(url, potential_target)
+                    if PROTOCOL_RE.match(stripped_url):
+                        target = urljoin(stripped_url, potential_target)
                     else:
-                        target = urljoin("http://" + url, potential_target)[7:]
+                        target = urljoin("http://" + stripped_url, potential_target)[7:]
                 except ValueError:
                     target = None
 
